@@ -66,7 +66,7 @@ def build(tier: str) -> List[Cond]:
 
 def run(tier: str, seed: int, only=None) -> Report:
     from ..ch import tier_conds
-    conds = tier_conds(build, tier, cap=350)
+    conds = tier_conds(build, tier, cap=250)
     if only:
         conds = [c for c in conds if only in c.oid]
     rep = Report(
